@@ -2,6 +2,7 @@ package checks
 
 import (
 	"bytes"
+	"errors"
 	"fmt"
 	"math/rand"
 	"strings"
@@ -198,6 +199,12 @@ func c06Run(c *core.Ctx, i int64, src []byte, class string, hint string) {
 			steps = append(steps, mon.Step{N: 1 + rr.Intn(len(src))})
 		}
 	}
+	injected := false
+	if len(steps) > 0 && rr.Intn(4) == 0 {
+		// the last scripted read hands out its bytes together with a real error (also after the lexer gave up)
+		steps[len(steps)-1].Err = []error{mon.ErrInjected, mon.ErrWrappedEOF}[rr.Intn(2)]
+		injected = true
+	}
 	sc := mon.NewScript("f.bcl", src, steps)
 	out.Reset()
 	lg.Reset()
@@ -219,7 +226,12 @@ func c06Run(c *core.Ctx, i int64, src []byte, class string, hint string) {
 		c.Count("calls_UnmarshalFile", 1)
 	}
 	c.Eval(1)
-	if (ferr != nil) != (perr != nil) && i%3 == 0 {
+	if injected {
+		c.Count("file_variant_calls_with_data_and_error_in_one_read", 1)
+		if ferr == nil && sc.ErrDelivered() {
+			c.Violation("read-error-lost", "a file variant returned nil although a read returned an error", map[string]any{"source_q": fmt.Sprintf("%q", src), "reads": sc.ReadLog()})
+		}
+	} else if (ferr != nil) != (perr != nil) && i%3 == 0 {
 		c.Violation("parse-parsefile-disagree", fmt.Sprintf("Parse err=%v but ParseFile err=%v", perr, ferr), map[string]any{"source_q": fmt.Sprintf("%q", src), "reads": sc.ReadLog()})
 	}
 	if nontrivial {
@@ -429,6 +441,105 @@ var c06Seeds = []string{
 	`def b { var v = 1; v = v + 1; w = v == 2 }`,
 }
 
+var c06PrefixSeeds = []string{
+	"print 1 # café",
+	"var s = \"漢字\" # \U0001F600\nprint s # é漢",
+	"def b \"näme\" { f = \"\U0001F600\" }\u0085print 1 #  ",
+	"print é",
+	"#\U0001F600",
+	"print \"a\\u00e9\\U0001F600\\xe9\\351\" + \"\\\"\" # \"",
+	"\ufeffprint 1 # \ufeff",
+}
+
+// c06ForeignFiles: inputs that are files of another kind (bytecode dumps of this very library first).
+func c06ForeignFiles() [][]byte {
+	var out [][]byte
+	for _, src := range []string{"print 1", "var x = 1\ndef b \"n\" { f = x + 2 }\nbind b -> struct\nprint \"s\" * 3\n", ""} {
+		p, err := bcl.Parse([]byte(src), "in.bcl")
+		if err != nil {
+			continue
+		}
+		var b bytes.Buffer
+		if p.Dump(&b) != nil {
+			continue
+		}
+		d := b.Bytes()
+		out = append(out, append([]byte{}, d...), append([]byte{}, d[:min(len(d), 3)]...), append(append([]byte{}, d...), "\nprint 1\n"...),
+			append([]byte("#!/usr/bin/env bcl\n"), d...))
+	}
+	out = append(out,
+		[]byte("\xfc\x6c"), []byte("\xfc\x6c\x01\x01"), []byte("\xfc\x6c\x01\x01\x00\x00\x00\x00\x00"),
+		[]byte("\x1f\x8b\x08\x00\x00\x00\x00\x00\x00\x03print 1"), []byte("\x7fELF\x02\x01\x01\x00\x00\x00\x00\x00\x00\x00\x00\x00"),
+		[]byte("PK\x03\x04\x14\x00\x00\x00"), []byte("\x89PNG\r\n\x1a\n\x00\x00\x00\rIHDR"),
+		[]byte("\xff\xfep\x00r\x00i\x00n\x00t\x00 \x001\x00"), []byte("\xfe\xff\x00p\x00r\x00i\x00n\x00t\x00 \x001"),
+		[]byte("#!/usr/bin/env bcl\nprint 1\n"), []byte("%PDF-1.4\n%\xe2\xe3\xcf\xd3\n"), []byte("\x00\x00\x00\x00"), []byte("{\"json\": [1, 2.5, \"s\", null]}"),
+		[]byte("<?xml version=\"1.0\"?>\n<a b=\"c\"/>"), []byte("key: value\nlist:\n  - 1\n"))
+	return out
+}
+
+// kthWriteFails accepts k writes and fails every later one.
+type kthWriteFails struct{ k, n int }
+
+func (w *kthWriteFails) Write(p []byte) (int, error) {
+	w.n++
+	if w.n > w.k {
+		return 0, errors.New("injected write error")
+	}
+	return len(p), nil
+}
+
+// c06DumpThenRun: Dump to a destination that starts failing at its k-th write, for every k up to the
+// size of the dump; the program must still execute afterwards (here: to a runtime error whose message
+// needs the line table) and dump again.
+func c06DumpThenRun(c *core.Ctx, i int64, variant int) {
+	lines := []int{10, 700, 1500, 3000, 5000, 9000}[variant]
+	var sb strings.Builder
+	for k := 0; k < lines; k++ {
+		fmt.Fprintf(&sb, "eval %d\n", k)
+	}
+	sb.WriteString("print \"before\"\neval 1 / 0\n")
+	src := []byte(sb.String())
+	c.NoteInput("src", src[:min(len(src), 2000)])
+	for k := 0; ; k++ {
+		var out, lg bytes.Buffer
+		prog, err := bcl.Parse(src, "in", bcl.OptOutput(&out), bcl.OptLogger(&lg))
+		if err != nil {
+			c.Inconclusive("harness: the dump-then-run program does not parse")
+			return
+		}
+		w := &kthWriteFails{k: k}
+		var derr error
+		pan, stack := protect(func() { derr = prog.Dump(w) })
+		c.Eval(1)
+		if pan != "" {
+			c.Violation(panicSig(pan, stack), fmt.Sprintf("Dump panicked with a destination failing at write %d: %s", k+1, pan), nil)
+			return
+		}
+		var xerr error
+		pan, stack = protect(func() { _, _, xerr = bcl.Execute(prog) })
+		c.Eval(1)
+		if pan != "" {
+			c.Violation(panicSig(pan, stack), fmt.Sprintf("Execute panicked after a Dump that failed at write %d: %s", k+1, pan), nil)
+			return
+		}
+		want := fmt.Sprintf("line %d:", lines+2)
+		if xerr == nil || !strings.Contains(xerr.Error(), want) || out.String() != "before\n" {
+			c.Violation("program-damaged-by-failed-dump", fmt.Sprintf("after a Dump that failed at write %d (Dump error: %v) the program gives err=%v, output %q; expected a runtime error at %s", k+1, derr, xerr, core.Trunc(out.String(), 80), want), nil)
+			return
+		}
+		var again bytes.Buffer
+		if e2 := prog.Dump(&again); e2 != nil {
+			c.Violation("program-damaged-by-failed-dump", fmt.Sprintf("after a Dump that failed at write %d a second Dump fails: %v", k+1, e2), nil)
+			return
+		}
+		c.Count("executions_after_a_failed_dump", 1)
+		if derr == nil {
+			break // the destination took the whole dump: every failing position was tried
+		}
+	}
+	c.Nontrivial(core.Hash("dump-then-run", variant))
+}
+
 func c06Damage(seed string) [][]byte {
 	var out [][]byte
 	b := []byte(seed)
@@ -571,7 +682,7 @@ func init() {
 		Rule: "crash/termination monitor in journalled worker processes: every input goes through Parse+Execute (VM hook: executed instructions <= instructions in the program, pc inside the code), Interpret, Unmarshal and one of ParseFile/InterpretFile/UnmarshalFile (a goroutine panic kills the worker; the parent finds the case in the journal and re-runs it alone). " +
 			"Inputs: fixed lists (limit scaling around operand depth 1024, 1024 locals, 16 nested blocks, paren nesting to 10^4, jump distance 65528..65542 sized exactly in code bytes; invalid and extreme literals in 8 contexts; out-of-domain operands incl. negative repeat counts and block values on every operator; every single-byte and single-token damage of 6 seed programs) " +
 			"and random ones (bytes, text soup, token sequences, generated programs with byte/token damage, hostile layout). A per-case watchdog identifies deadlocks from goroutine dumps. " +
-			"distinct = hash of input; non-trivial = the input compiled, or was rejected with a diagnostic Also: the operand stack filled to the limit by each kind of pushing instruction (constant, 0/1/true/false/nil shortcuts, variable read, field read, float, string) at depths 1016..1030 and after 1021..1024 variables; programs that reach the struct-binding layer of Unmarshal with an unexported tagged field in the target.",
+			"distinct = hash of input; non-trivial = the input compiled, or was rejected with a diagnostic Also: the operand stack filled to the limit by each kind of pushing instruction (constant, 0/1/true/false/nil shortcuts, variable read, field read, float, string) at depths 1016..1030 and after 1021..1024 variables; programs that reach the struct-binding layer of Unmarshal with an unexported tagged field in the target; every prefix of seed programs with multi-byte characters (input ending inside a character of a comment, string or stray character); files of another kind as source text (this library's bytecode dumps, gzip/ELF/zip/PNG/PDF headers, UTF-16 text, shebang lines, JSON, XML, YAML); a read handing out data together with a real error in a quarter of the file-variant calls; a program executed and dumped again after a Dump whose destination failed at its k-th write, for every k.",
 		Assumptions:   []string{"inputs whose legitimate result is a string beyond 2^16..2^20 bytes are skipped (property exclusion); nesting capped at 10^4"},
 		MinNontrivial: 1000,
 		Run: func(c *core.Ctx) {
@@ -600,6 +711,32 @@ func init() {
 					}
 					i++
 				}
+			}
+			// every prefix of programs with multi-byte characters in comments, strings and as stray characters
+			for _, seed := range c06PrefixSeeds {
+				for cut := 0; cut <= len(seed); cut++ {
+					if c.Mine(i) {
+						c.Begin(i)
+						c06Run(c, i, []byte(seed[:cut]), "every_prefix_of_a_seed", "")
+					}
+					i++
+				}
+			}
+			// files of another kind given as source text
+			for _, f := range c06ForeignFiles() {
+				if c.Mine(i) {
+					c.Begin(i)
+					c06Run(c, i, f, "file_of_another_kind", "")
+				}
+				i++
+			}
+			// a program stays usable after a failed Dump
+			for k := 0; k < 6; k++ {
+				if c.Mine(i) {
+					c.Begin(i)
+					c06DumpThenRun(c, i, k)
+				}
+				i++
 			}
 			base := i
 			n := int64(c.Pick(150000, 5000000))
